@@ -49,7 +49,7 @@ class UserReach:
 
     def resolve(self, b, term, depth=0):
         out = set()
-        for g in self.P.global_cell(b, term):
+        for g in self.P.global_cell(b, term, through_helpers="add"):
             bid, rk, rd, path = g
             gb = self.P.bodies[bid]
             if rk == "param" and gb.kind == "closure" and depth < 4:
@@ -194,7 +194,7 @@ def cell_identity(P, b, cell_prov):
     ('local', body id, alloc bb) for a cell allocated in a body (shared by that activation's closures)."""
     ids = set()
     for t in cell_prov:
-        for (bid, rk, rd, path) in P.global_cell(b, t):
+        for (bid, rk, rd, path) in P.global_cell(b, t, through_helpers=True):
             gb = P.bodies[bid]
             if rk == "param" and path:
                 adt = norm(ty_adt(gb.locals[rd]["ty"]) or "?")
